@@ -58,18 +58,22 @@ func (p *PubSub) handleNewStream(s network.Stream) {
 	sentNewStream := false
 
 	defer func() {
-		p.inboundStreamsMx.Lock()
-		if p.inboundStreams[peer].s == s {
-			delete(p.inboundStreams, peer)
-		}
-		p.inboundStreamsMx.Unlock()
-
+		// Tell the event loop first and only then give up our slot: a stream
+		// that replaces us waits for done (or finds the slot empty), so its
+		// own events, among them the subscriptions of its first RPC, cannot
+		// overtake this notification, which wipes the peer's subscriptions.
 		if sentNewStream {
 			select {
 			case p.incoming <- incomingUnion{kind: incomingKindClosedStream, s: s}:
 			case <-p.ctx.Done():
 			}
 		}
+
+		p.inboundStreamsMx.Lock()
+		if p.inboundStreams[peer].s == s {
+			delete(p.inboundStreams, peer)
+		}
+		p.inboundStreamsMx.Unlock()
 
 		close(done)
 	}()
